@@ -2,6 +2,7 @@ CONSTANT MaxMods = 3
 CONSTANT MinMods = 2
 CONSTANT Spells <- AllSpells
 CONSTANT Places <- OneEarly
+CONSTANT Agains <- NoAgain
 CONSTANT Layouts <- AllLayouts
 INIT Init
 NEXT Next
